@@ -475,6 +475,9 @@ func parseOp(op string) (p parsed, err error) {
 			})
 			return r
 		}}, nil
+	case name == "csvdelim" && dir == "rt" && len(ws) == 3:
+		return parsed{expr: `. as $c | ` + rtExpr(`[["a","b"]] | to_csv({comma: $c})`, `from_csv({comma: $c}) | tovalue`),
+			input: string(hlib.UnHex(ws[2])), render: jsonRtObs}, nil
 	case name == "csv" && dir == "rt" && len(ws) == 3:
 		return parsed{expr: rtExpr("to_csv", "from_csv | tovalue"), input: parseWire(ws[2]), render: jsonRtObs}, nil
 	case name == "csv" && dir == "dec" && len(ws) == 3:
